@@ -660,7 +660,7 @@ pub fn run(ctx: &Ctx) -> (Report, PropertyMeta) {
         cases.len()
     ));
     report.merge(r);
-    let n = t.pick(6000, 200_000);
+    let n = t.pick(40_000, 1_000_000);
     let r = run_random(ctx, "cut", n, 16..=60, gen_cut, cut_outcome);
     report.sections.push(json!({"part": "random cut positions / kinds / victim traffic / healthy peer counts / tails", "cases": n}));
     report.merge(r);
